@@ -69,23 +69,40 @@ type ContractSet struct {
 	Axioms    []*Clause
 	Unbound   []string
 	FlagSets  map[string]int // type key -> number of bits
+	MethodNonNil map[string]bool
 }
 
 var clauseKeywords = map[string]bool{"requires": true, "ensures": true, "invariant": true, "decreases": true, "property": true,
 	"pure": true, "assigns": true, "trusted": true, "noinline": true, "inline": true, "func": true, "sweep": true, "immutable": true, "spec": true,
-	"axiom": true, "flagset": true, "safeonly": true}
+	"axiom": true, "flagset": true, "safeonly": true, "immutable-family": true, "method-pre": true}
+
+var contractRoot = "" // directory that contract file paths are relative to (repo or mirror)
+
+func mirrorDir() string { return filepath.Join(verifDir, "contracts", "repo") }
 
 func findContractFiles() []string {
 	var files []string
-	filepath.Walk(repoDir(), func(p string, info os.FileInfo, err error) error {
-		if err == nil && !info.IsDir() && strings.HasSuffix(p, "_verif.go") {
-			files = append(files, p)
-		}
-		return nil
-	})
+	walk := func(root string) []string {
+		var fs []string
+		filepath.Walk(root, func(p string, info os.FileInfo, err error) error {
+			if err == nil && !info.IsDir() && strings.HasSuffix(p, "_verif.go") {
+				fs = append(fs, p)
+			}
+			return nil
+		})
+		return fs
+	}
+	contractRoot = repoDir()
+	if os.Getenv("GOVC_DEV") == "" {
+		files = walk(repoDir())
+	}
+	if len(files) == 0 {
+		contractRoot = mirrorDir()
+		files = walk(mirrorDir())
+	}
 	extra := os.Getenv("GOVC_CONTRACTS")
 	if extra == "" {
-		extra = "/verif/contracts"
+		extra = filepath.Join(verifDir, "contracts")
 	}
 	filepath.Walk(extra, func(p string, info os.FileInfo, err error) error {
 		if err == nil && !info.IsDir() && (strings.HasSuffix(p, ".stub") || strings.HasSuffix(p, ".spec")) {
@@ -127,7 +144,7 @@ func (w *World) parseContractFile(cs *ContractSet, file string) error {
 	}
 	pkgShort := ""
 	if strings.HasSuffix(file, ".go") {
-		rel, _ := filepath.Rel(repoDir(), filepath.Dir(file))
+		rel, _ := filepath.Rel(contractRoot, filepath.Dir(file))
 		pkgShort = shortPkg(modulePath + "/" + filepath.ToSlash(rel))
 	}
 	type rawLine struct {
@@ -260,6 +277,18 @@ func (w *World) parseContractFile(cs *ContractSet, file string) error {
 				cur.AssignsTop = true
 			} else {
 				cur.Assigns = append(cur.Assigns, strings.Fields(strings.ReplaceAll(rest, ",", " "))...)
+			}
+		case "immutable-family":
+			for _, f := range strings.Fields(strings.ReplaceAll(rest, ",", " ")) {
+				cs.Immutable[f] = true
+			}
+		case "method-pre":
+			// method-pre UnmarshalYAML nonnil : receiver and pointer parameters of every method with that name are non-nil
+			if len(fs) >= 3 && fs[2] == "nonnil" {
+				if cs.MethodNonNil == nil {
+					cs.MethodNonNil = map[string]bool{}
+				}
+				cs.MethodNonNil[fs[1]] = true
 			}
 		case "immutable":
 			for _, f := range strings.Fields(strings.ReplaceAll(rest, ",", " ")) {
